@@ -254,6 +254,12 @@ def run(ctx):
                   ((norm(vw[0][0], 60), vw[0][1], vw[0][2]) if vw
                    else ("", "", "")), node=vw[0][0] if vw else fi_.node)
     ctx.floor("C05-R9", nvw, 2, "fitting functions examined for view writes")
+    ctx.rule("C05-R10", "catalogues without the optional psf columns (psf = "
+             "nan): resize keeps their sources -- the psf sanity test is "
+             "false for nan and ratio 1 leaves the shapes untouched "
+             "(interpreted over nan / positive samples; shared with C19-R7)")
+    from .c19 import resize_nan_rule
+    resize_nan_rule(ctx, prog, "C05-R10")
     # blends are fitted jointly: default grouping length (shared with C19)
     from .c19 import default_linking_length
     ctx.rule("C05-R8", "blended sources are fitted jointly: the default "
